@@ -30,6 +30,7 @@ META = {
 
 def check(ctx):
     m = sc.build(ctx, "R10")
+    ctx.run(r10_0, m)
     ctx.run(r10_1, m)
     ctx.run(r10_2, m)
     ctx.run(r10_3, m)
@@ -350,7 +351,9 @@ def r10_4(ctx, m):
     if len(callers) != 1 or m.writer not in f.params:
         raise AnalysisError("R10.4", f.where(), "cannot find the one caller that hands the output handle to the sort function")
     cf, call = callers[0]
-    cf = desugar_ifexp(cf)
+    from ..core import inline_callable_aliases, sink_into_branches
+
+    cf = inline_callable_aliases(sink_into_branches(desugar_ifexp(cf)))  # `opener, mode = (A, "wb") if z else (open, "w"); w = opener(p, mode)`
     call = next((c for c in walk_own(cf.node) if isinstance(c, ast.Call) and repo.resolve_call(cf, c) is not None and same_func(repo.resolve_call(cf, c), f)), None)
     widx = f.params.index(m.writer)
     if call is None or widx >= len(call.args) or not isinstance(call.args[widx], ast.Name):
@@ -383,3 +386,23 @@ def r10_4(ctx, m):
     ctx.check(bad is None, "R10.4", cf.where(call), "the handle whose tell() feeds the index is opened on the output path itself (no temporary file that is compressed or renamed into the output afterwards)", key_of(cf, f"indexed-handle-path:{bad[1] if bad else ''}"), **({"path": bad[0].show(), "why": bad[1]} if bad else {"openers": n}))
     if bad is None and n == 0:
         raise AnalysisError("R10.4", cf.where(), f"cannot find where the output handle `{wv}` is opened")
+
+
+def r10_0(ctx, m):
+    """Every contig has an interval of its own: the [first, last] lists of the index are distinct objects.
+    `dict.fromkeys(keys, [None, None])` (and `[[None, None]] * n`) puts one shared list under every key, so an update for one
+    contig is an update for all."""
+    repo = ctx.repo
+    n = 0
+    for f in repo.all_funcs():
+        if f.module is not m.f.module:
+            continue
+        for c in walk_own(f.node):
+            if isinstance(c, ast.Call) and norm(c.func) == "dict.fromkeys" and len(c.args) == 2 and isinstance(c.args[1], (ast.List, ast.Dict, ast.Set, ast.ListComp)):
+                n += 1
+                ctx.violated("R10.0", f.where(c), f"`{norm(c)[:70]}` puts the same list object under every key: the first and last offset recorded for one contig overwrite those of every other contig (all contigs end up with one shared interval)", key_of(f, f"shared-mutable-default:{norm(c)[:50]}"))
+            if isinstance(c, ast.BinOp) and isinstance(c.op, ast.Mult) and isinstance(c.left, ast.List) and len(c.left.elts) == 1 and isinstance(c.left.elts[0], (ast.List, ast.Dict)):
+                n += 1
+                ctx.violated("R10.0", f.where(c), f"`{norm(c)[:70]}` repeats one inner list object: all entries share it", key_of(f, f"shared-mutable-default:{norm(c)[:50]}"))
+    if n == 0:
+        ctx.holds("R10.0", m.f.where(), "no container of the sort module is filled with one shared mutable default (dict.fromkeys(keys, []), [[...]] * n)", nontrivial=False)
